@@ -155,6 +155,45 @@ def s_folded_consumers(rng, nval):
                stateful=stateful_)
 
 
+def s_shared_anon_const(rng, nval):
+    """One anonymous constant (a literal bound to a Signal parameter) read by a foldable operation AND by a
+    consumer the folder does not rewrite (multi-row decider, wire merge, bundle, entity condition, memory write)."""
+    types = gen.Types(rng)
+    tp = types.fresh()
+    v = rng.randint(2, 9)
+    kind = rng.choice(["multicond", "merge", "bundle", "enable", "memdata", "cmpfold"])
+    tc = tp if kind == "merge" else types.fresh()
+    prog = [["input", "a", tc, rng.randint(0, 9)]]
+    body = [["sig", "q", ["b", rng.choice(["*", "+", "-"]), ["v", "p"], ["n", rng.randint(2, 5)]]]]
+    stateful_ = False
+    if kind == "multicond":
+        lg = rng.choice(["&&", "||"])
+        r = ["s", [lg, ["c", ">", ["v", "p"], ["n", rng.randint(0, 9)]], ["c", ">", ["v", "c"], ["n", rng.randint(0, 5)]]], ["n", 1]]
+        ret = ["b", "+", ["v", "q"], ["p", r, types.fresh()]]
+    elif kind == "merge":
+        ret = ["b", "+", ["p", ["v", "q"], types.fresh()], ["p", ["b", "+", ["v", "p"], ["v", "c"]], types.fresh()]]
+    elif kind == "bundle":
+        prog.append(["place", "lamp", "small-lamp", ["n", 0], ["n", 20], None])
+        body.append(["bun", "bb", ["B", [["v", "p"], ["v", "c"]]]])
+        body.append(["set", "lamp", "enable", [rng.choice(["any", "all"]), ">", ["v", "bb"], ["n", rng.randint(0, 8)]]])
+        ret = ["v", "q"]
+    elif kind == "enable":
+        prog.append(["place", "lamp", "small-lamp", ["n", 0], ["n", 20], None])
+        body.append(["set", "lamp", "enable", ["c", rng.choice([">", "<", "!="]), ["v", "p"], ["v", "c"]]])
+        ret = ["v", "q"]
+    elif kind == "memdata":
+        body.append(["mem", "m", tp])
+        body.append(["write", "m", ["v", "p"], ["c", ">", ["v", "c"], ["n", 0]]])
+        ret = ["b", "+", ["v", "q"], ["p", ["r", "m"], types.fresh()]]
+        stateful_ = True
+    else:
+        body.append(["sig", "z", ["c", ">", ["v", "p"], ["n", rng.randint(0, 9)]]])
+        ret = ["b", "+", ["p", ["v", "q"], types.fresh()], ["b", "*", ["v", "c"], ["v", "z"]]]
+    prog.append(["func", "f", [["Signal", "p"], ["Signal", "c"]], body, ret])
+    prog.append(["sig", "x", ["p", ["call", "f", [["t", tp, ["n", v]], ["v", "a"]]], types.fresh()]])
+    return _mk(prog, "shared_anonymous_constant:" + kind, rng, nval, edges={"a": list(range(-2, 11))}, stateful=stateful_)
+
+
 def s_fanout(rng, nval):
     types = gen.Types(rng)
     prog = [["input", "a", types.fresh(), gen.rand_value(rng, True)]]
@@ -187,7 +226,7 @@ def s_c05(rng, nval):
     return _mk(prog, "C05:%s_%s" % (kind, order), rng, nval, edges=edges, history=True, nsteps=rng.randint(10, 24))
 
 
-STRATA = [(s_cse_variants, 5), (s_bundle_cse_variants, 3), (s_folded_consumers, 5), (s_fanout, 2),
+STRATA = [(s_cse_variants, 5), (s_bundle_cse_variants, 3), (s_folded_consumers, 5), (s_shared_anon_const, 4), (s_fanout, 2),
           (from_other(C01.s_dag_distinct, "C01"), 4), (from_other(C01.s_dag_same, "C01"), 1),
           (from_other(C01.s_logic_chain, "C01"), 2), (from_other(C01.s_sel, "C01"), 2),
           (from_other(C01.s_sel_same_typed, "C01"), 2), (from_other(C01.s_two_producers, "C01"), 2),
